@@ -4,6 +4,9 @@
 #ifndef VH_TYPES_HPP
 #define VH_TYPES_HPP
 
+// the feature macros a configuration implies are only defined once Capabilities.hpp has run
+#include <avel/Avel.hpp>
+
 #ifndef VH_GROUP
 #define VH_GROUP 0
 #endif
